@@ -226,6 +226,9 @@ def eval_graph(case):
                     continue
                 others = [x for x in range(n) if x not in (s, t)]
                 hop_sets = [()] + [(x,) for x in others] + [p for p in itertools.permutations(others, 2)]
+                # hop lists naming the end nodes themselves, and a repeated hop
+                hop_sets += [(s,), (t,), (s, t), (t, s)] + [(s, x) for x in others[:1]] + [(x, t) for x in others[:1]] + \
+                            [(x, x) for x in others[:1]]
                 sp = simple_paths(a, s, t)
                 for hops in hop_sets:
                     hop_ids = [IDS[h] for h in hops]
